@@ -15,6 +15,9 @@ const PatchExpirationMargin = 10 * time.Second
 var ErrPatchSamePublishTime = fmt.Errorf("same publishTime in both MPDs")
 var ErrPatchTooLate = fmt.Errorf("patch TTL exceeded")
 
+// ErrPatchNoTTL: the old MPD does not offer patches (no PatchLocation element with a ttl).
+var ErrPatchNoTTL = fmt.Errorf("old MPD has no PatchLocation with a ttl")
+
 type patchDoc struct {
 	doc *etree.Document
 }
@@ -97,11 +100,11 @@ func checkPatchConditions(oldRoot, newRoot *etree.Element) (expiration time.Time
 	}
 	oldPatchLocation := oldRoot.SelectElement("PatchLocation")
 	if oldPatchLocation == nil {
-		return expiration, fmt.Errorf("no PatchLocation element in old MPD")
+		return expiration, fmt.Errorf("no PatchLocation element in old MPD: %w", ErrPatchNoTTL)
 	}
 	oldTTL := oldPatchLocation.SelectAttr("ttl")
 	if oldTTL == nil {
-		return expiration, fmt.Errorf("no ttl attribute in PatchLocation element in old MPD")
+		return expiration, fmt.Errorf("no ttl attribute in PatchLocation element in old MPD: %w", ErrPatchNoTTL)
 	}
 	ttl, err := strconv.Atoi(oldTTL.Value)
 	if err != nil {
